@@ -21,7 +21,7 @@ def run_cancel(case):
         def write(self, data):
             line = bytes(data)
             if line.startswith(b'GETINFO c') and line.endswith(b'\r\n'):
-                cur.append(['wrote', int(line[9:-2])])
+                cur.append(['wrote', int(line[9:-2].split(b' ')[0])])
             else:
                 cur.append(['wrote', 999999])
 
@@ -43,15 +43,43 @@ def run_cancel(case):
                 cur.append(['res', k, 'other:' + type(f.value).__name__])
         d.addCallbacks(ok, err)
 
+    # lazy mode: the caller keeps the Deferreds and attaches nothing to them; what happened to each is read
+    # off `d.called` / `d.result` after every operation (newly resolved commands in id order, which is also the
+    # order of the reference trace, then the writes of the operation)
+    lazy = bool(case.get('lazy'))
+    known = set()
+
+    def poll():
+        evs = []
+        for k, d in enumerate(ds):
+            if k not in known and d.called:
+                known.add(k)
+                r = d.result
+                if isinstance(r, Failure):
+                    if r.check(CancelledError):
+                        evs.append(['res', k, 'cancelled'])
+                    elif r.check(TorDisconnectError):
+                        evs.append(['res', k, 'disc'])
+                    else:
+                        evs.append(['res', k, 'other:' + type(r.value).__name__])
+                else:
+                    evs.append(['res', k, 'ok'])
+        return evs
+
     out = []
     for o in case['ops']:
         cur = []
         try:
             if o[0] == 'submit':
                 k = len(ds)
-                d = proto.queue_command('GETINFO c%d' % k)
+                if k in case.get('raw', []):
+                    # the caller passes bytes, one of them >= 128 (queue_command accepts bytes as they are)
+                    d = proto.queue_command(b'GETINFO c%d \xff\xe9' % k)
+                else:
+                    d = proto.queue_command('GETINFO c%d' % k)
                 ds.append(d)
-                watch(d, k)
+                if not lazy:
+                    watch(d, k)
             elif o[0] == 'cancel':
                 ds[o[1]].cancel()
             elif o[0] == 'reply':
@@ -60,7 +88,11 @@ def run_cancel(case):
                 proto.connectionLost(Failure(ConnectionDone()))
         except Exception as e:                      # an exception of the implementation is an observation
             cur.append(['res', 999999, 'raised:' + type(e).__name__])
+        if lazy:
+            cur = poll() + cur
         out.append(cur)
+    for d in ds:
+        d.addErrback(lambda f: None)                # no 'Unhandled error in Deferred' noise at collection time
     return {'ops': out}
 
 
@@ -114,7 +146,8 @@ def gen_cancel(rng):
             n += 1
     if lose_at is not None and not lost:
         ops.append(['lose'])
-    return {'fam': 'cancel', 'ops': ops}
+    raw = [k for k in range(n) if rng.random() < 0.15]
+    return {'fam': 'cancel', 'ops': ops, 'lazy': rng.random() < 0.4, 'raw': raw}
 
 
 class P(core.Prop):
@@ -132,7 +165,9 @@ class P(core.Prop):
             'every byte offset of 200 sessions. non-trivial = a command outstanding at the loss or submitted '
             'after it. (b) one case in five: command-level histories of 3-16 operations (submit, cancel of any '
             'submitted command - mostly unanswered ones -, whole 250 OK reply while a command awaits one, one '
-            'loss at a random position in 85%, submissions and cancels after it); thorough adds every history of '
+            'loss at a random position in 85%, submissions and cancels after it; in 40% the caller attaches nothing '
+            'to the Deferreds and their state is read after every operation; 15% of the commands are passed as bytes '
+            'holding non-ASCII bytes); thorough adds every history of '
             'length <= 6 over {submit, cancel 0, cancel 1, reply, lose}')
     trusted = ['Twisted LineOnlyReceiver / StringTransport; the Deferred callbacks of the harness']
     assumptions = ['connectionLost is delivered once, and no bytes arrive after it',
@@ -231,6 +266,8 @@ class P(core.Prop):
                         lost = True
                 if good and n >= 1:
                     out.append({'fam': 'cancel', 'ops': [list(o) for o in t]})
+                    if ln <= 5:
+                        out.append({'fam': 'cancel', 'ops': [list(o) for o in t], 'lazy': True})
         return out, ('the loss at every byte offset (up to 160) of 200 sessions; every causal command-level history '
                      'of length <= 6 over {submit, cancel 0, cancel 1, reply, lose}')
 
@@ -249,7 +286,8 @@ class P(core.Prop):
         if case.get('fam') == 'cancel':
             lost = any(o[0] == 'lose' for o in ops)
             nc = sum(1 for es in obs['ops'] for e in es if e[0] == 'res' and e[2] == 'cancelled')
-            return 'cancel/%s/%s' % ('lost' if lost else 'open', '0' if nc == 0 else ('1' if nc == 1 else '2+'))
+            return 'cancel%s/%s/%s' % ('-lazy' if case.get('lazy') else '', 'lost' if lost else 'open',
+                                       '0' if nc == 0 else ('1' if nc == 1 else '2+'))
         k = [i for i, o in enumerate(ops) if o[0] == 'lose'][0]
         pre = sum(1 for o in ops[:k] if o[0] == 'submit')
         post = sum(1 for o in ops[k:] if o[0] == 'submit')
